@@ -196,7 +196,7 @@ func (p *persist) violate(di int, rule, msg string) {
 		p.mu.Unlock()
 	}
 	if t == 0 {
-		w.k.Violate("C07x/"+rule, msg)
+		w.k.Violate("C07/"+rule, msg)
 		return
 	}
 	// The history contains one of the interleavings in which the store's
@@ -207,7 +207,7 @@ func (p *persist) violate(di int, rule, msg string) {
 	cause := taintName(t)
 	full := rule + "-after-" + cause
 	if w.strict["all"] || w.strict[cause] {
-		w.k.Violate("C07x/"+full, msg+fmt.Sprintf(" [history of this digest contains: %s]", p.taintList(t)))
+		w.k.Violate("C07/"+full, msg+fmt.Sprintf(" [history of this digest contains: %s]", p.taintList(t)))
 		return
 	}
 	w.k.Probe("finding:" + full)
